@@ -206,6 +206,9 @@ type Session struct {
 
 // NewSession wraps an interceptor; nothing is bound yet.
 func NewSession(i interceptor.Interceptor, x *Extra) *Session {
+	if i == nil {
+		i = &interceptor.NoOp{}
+	}
 	if x == nil {
 		x = &Extra{}
 	}
@@ -258,6 +261,9 @@ func (s *Session) NewRemote(k int, negotiated bool) *Remote {
 	r.R = s.I.BindRemoteStream(r.Info, r.feed)
 	return r
 }
+
+// SinkFor returns the transport's RTP writer for stream k (for components that take writers directly).
+func (s *Session) SinkFor(k int) interceptor.RTPWriter { return &rtpSink{s.T, k} }
 
 // BindAll binds RTCP writer and reader, local streams 1 (negotiated) and 2 (plain), remote streams 1 and 2.
 func (s *Session) BindAll() {
